@@ -1047,6 +1047,14 @@ func (f *File) Cleanup() {
 	f.Tool = f.Tool[:w]
 
 	f.Syntax.Cleanup()
+
+	// A retraction that was the last line left in a block is now a
+	// single line carrying the block's comments as well as its own.
+	for _, r := range f.Retract {
+		if r.Syntax != nil && !r.Syntax.InBlock {
+			r.Rationale = parseDirectiveComment(nil, r.Syntax)
+		}
+	}
 }
 
 func (f *File) AddGoStmt(version string) error {
